@@ -508,5 +508,128 @@ Fixpoint ok_s (br : bool) (s : stmt) : bool :=
 
 Definition in_fragment (body : stmt) : bool := ok_s false body.
 
+(* ------------------------------------------------------------------------------------------------ *)
+(* 5. the fragment with function declarations (JsDeps/Funs.v): no variable ever holds the inputs object (the object is
+      only used as the base of a member access written [inputs.f] / [inputs["f"]]); function declarations at the top
+      level of the library and of the body (not nested, no function expressions), called through an identifier;
+      [L] = the names declared in the current function (parameters and vars), which never hold the inputs object. *)
+
+Fixpoint may_inpB (L : list string) (e : expr) : bool :=
+  match e with
+  | EId x => negb (mem x L)
+  | EParen e1 => may_inpB L e1
+  | ECond _ a b => may_inpB L a || may_inpB L b
+  | EAssign _ r => may_inpB L r
+  | _ => false
+  end.
+
+Fixpoint okb_e (L : list string) (e : expr) : bool :=
+  match e with
+  | ENum _ | EStr _ _ | EBool _ => true
+  | EId x => mem x L || String.eqb x "inputs"
+  | EDot e1 f =>
+      okb_e L e1 && match get_name e1 with Some _ => negb (is_reserved f) | None => negb (may_inpB L e1) end
+  | EIdx e1 k =>
+      okb_e L e1 && match get_name e1 with
+                    | Some _ => good_key k
+                    | None => negb (may_inpB L e1) && okb_e L k
+                    end
+  | EAdd a b => okb_e L a && okb_e L b
+  | ECond c a b => okb_e L c && okb_e L a && okb_e L b
+  | EParen e1 => okb_e L e1
+  | EAssign x r => mem x L && okb_e L r && negb (may_inpB L r)
+  | ECall f args => (match get_name f with Some _ => true | None => false end) && okb_l L args
+  | EFun _ _ => false
+  end
+with okb_l (L : list string) (l : elist) : bool :=
+  match l with
+  | ENil => true
+  | ECons e r => okb_e L e && negb (may_inpB L e) && okb_l L r
+  end.
+
+Fixpoint okb_s (top : bool) (L : list string) (s : stmt) : bool :=
+  match s with
+  | SSkip => true
+  | SVar x => mem x L
+  | SSeq a b => okb_s top L a && okb_s top L b
+  | SVarI x e => mem x L && okb_e L e && negb (may_inpB L e)
+  | SExpr e => okb_e L e
+  | SRet e => okb_e L e && negb (may_inpB L e)
+  | SIf c t f => okb_e L c && okb_s false L t && okb_s false L f
+  | SFun _ ps body =>
+      top && okb_s false (ps ++ hoist_vars body) body && negb (mem "inputs" (ps ++ hoist_vars body))
+  end.
+
+Definition in_fragmentF (lib body : stmt) : bool :=
+  let prog := SSeq lib body in
+  okb_s true (hoist_vars prog) prog && negb (mem "inputs" (hoist_vars prog)).
+
+(* every field that is syntactically read from the identifier [inputs], function bodies included *)
+Definition inputs_key (e1 : expr) (k : list string) : list string :=
+  match e1 with EId x => if String.eqb x "inputs" then k else [] | _ => [] end.
+Fixpoint ad_e (e : expr) : list string :=
+  match e with
+  | ENum _ | EStr _ _ | EBool _ | EId _ => []
+  | EDot e1 f => inputs_key e1 [f] ++ ad_e e1
+  | EIdx e1 k => inputs_key e1 (match k with EStr _ s => [s] | _ => [] end) ++ ad_e e1 ++ ad_e k
+  | EAdd a b => ad_e a ++ ad_e b
+  | ECond c a b => ad_e c ++ ad_e a ++ ad_e b
+  | EParen e1 => ad_e e1
+  | EAssign _ r => ad_e r
+  | ECall f args => ad_e f ++ ad_l args
+  | EFun _ body => ad_s body
+  end
+with ad_l (l : elist) : list string :=
+  match l with ENil => [] | ECons e r => ad_e e ++ ad_l r end
+with ad_s (s : stmt) : list string :=
+  match s with
+  | SSkip | SVar _ => []
+  | SSeq a b => ad_s a ++ ad_s b
+  | SVarI _ e | SExpr e | SRet e => ad_e e
+  | SIf c t f => ad_e c ++ ad_s t ++ ad_s f
+  | SFun _ _ body => ad_s body
+  end.
+
+(* ------------------------------------------------------------------------------------------------ *)
+(* 6. whole interpolated strings: every part is evaluated left to right; the first failure aborts.  A parameter
+      reference whose root is not [inputs] (self, runtime) starts at another object and reads nothing from inputs. *)
+
+Fixpoint run_parts (inp : list (string * ival)) (n : nat) (lib : stmt) (ps : list part) (acc : list string)
+  : option (list string) :=
+  match ps with
+  | [] => Some acc
+  | PText _ :: r => run_parts inp n lib r acc
+  | PRef root segs :: r =>
+      if String.eqb root "inputs" then
+        match run_ref inp n root segs with
+        | Ok _ s => run_parts inp n lib r (snd s ++ acc)
+        | _ => None
+        end
+      else run_parts inp n lib r acc
+  | PJs body :: r =>
+      match run inp n lib body with
+      | Ok _ s => run_parts inp n lib r (snd s ++ acc)
+      | _ => None
+      end
+  end.
+
+Definition seg_key (g : seg) : string :=
+  match g with SgDot s => s | SgSingle raw | SgDouble raw => unesc2 raw | SgIdx n => dec n end.
+
+Definition part_ok (lib : stmt) (p : part) : bool :=
+  match p with
+  | PText _ => true
+  | PRef root segs =>
+      negb (String.eqb root "inputs") ||
+      match segs with
+      | [] => true
+      | SgIdx _ :: _ => false
+      | g :: _ => negb (String.eqb (seg_key g) "")
+      end
+  | PJs body => in_fragmentF lib body || (match lib with SSkip => in_fragment body | _ => false end)
+  end.
+
+Definition parts_in_fragment (lib : stmt) (ps : list part) : bool := forallb (part_ok lib) ps.
+
 Definition incl_b (a b : list string) : bool := forallb (fun x => mem x b) a.
 Definition set_eqb (a b : list string) : bool := incl_b a b && incl_b b a.
